@@ -8,96 +8,96 @@ name: str_append_char.empty
 define: VP=str, U_APPEND_CHAR, U_EMPTY
 src: str.c, obj.c
 enforce: spif_str_append_char
-backend: z3,sat
-timeout: 150
+backend: sat,z3
+timeout: 200
 */
 /*@unit
 name: str_append_char.nonempty
 define: VP=str, U_APPEND_CHAR, U_NONEMPTY
 src: str.c, obj.c
 enforce: spif_str_append_char
-backend: z3,sat
-timeout: 150
+backend: sat,z3
+timeout: 200
 */
 /*@unit
 name: str_append_from_ptr.empty
 define: VP=str, U_APPEND_FROM_PTR, U_EMPTY
 src: str.c, obj.c
 enforce: spif_str_append_from_ptr
-backend: z3,sat
-timeout: 150
+backend: sat,z3
+timeout: 200
 */
 /*@unit
 name: str_append_from_ptr.nonempty
 define: VP=str, U_APPEND_FROM_PTR, U_NONEMPTY
 src: str.c, obj.c
 enforce: spif_str_append_from_ptr
-backend: z3,sat
-timeout: 150
+backend: sat,z3
+timeout: 200
 */
 /*@unit
 name: str_append.empty
 define: VP=str, U_APPEND, U_EMPTY
 src: str.c, obj.c
 enforce: spif_str_append
-backend: z3,sat
-timeout: 150
+backend: sat,z3
+timeout: 200
 */
 /*@unit
 name: str_append.nonempty
 define: VP=str, U_APPEND, U_NONEMPTY
 src: str.c, obj.c
 enforce: spif_str_append
-backend: z3,sat
-timeout: 150
+backend: sat,z3
+timeout: 200
 */
 /*@unit
 name: ustr_append_char.empty
 define: VP=ustr, U_APPEND_CHAR, U_EMPTY
 src: ustr.c, obj.c
 enforce: spif_ustr_append_char
-backend: z3,sat
-timeout: 150
+backend: sat,z3
+timeout: 200
 */
 /*@unit
 name: ustr_append_char.nonempty
 define: VP=ustr, U_APPEND_CHAR, U_NONEMPTY
 src: ustr.c, obj.c
 enforce: spif_ustr_append_char
-backend: z3,sat
-timeout: 150
+backend: sat,z3
+timeout: 200
 */
 /*@unit
 name: ustr_append_from_ptr.empty
 define: VP=ustr, U_APPEND_FROM_PTR, U_EMPTY
 src: ustr.c, obj.c
 enforce: spif_ustr_append_from_ptr
-backend: z3,sat
-timeout: 150
+backend: sat,z3
+timeout: 200
 */
 /*@unit
 name: ustr_append_from_ptr.nonempty
 define: VP=ustr, U_APPEND_FROM_PTR, U_NONEMPTY
 src: ustr.c, obj.c
 enforce: spif_ustr_append_from_ptr
-backend: z3,sat
-timeout: 150
+backend: sat,z3
+timeout: 200
 */
 /*@unit
 name: ustr_append.empty
 define: VP=ustr, U_APPEND, U_EMPTY
 src: ustr.c, obj.c
 enforce: spif_ustr_append
-backend: z3,sat
-timeout: 150
+backend: sat,z3
+timeout: 200
 */
 /*@unit
 name: ustr_append.nonempty
 define: VP=ustr, U_APPEND, U_NONEMPTY
 src: ustr.c, obj.c
 enforce: spif_ustr_append
-backend: z3,sat
-timeout: 150
+backend: sat,z3
+timeout: 200
 */
 #include "str.h"
 
@@ -131,7 +131,7 @@ void harness(void)
 spif_bool_t VF(append_from_ptr)(VT self, spif_charptr_t other)
 __CPROVER_requires(STR_SELF_PRE(self))
 __CPROVER_requires(other == NULL || VCSTR_FRESH(other, vg_n1))
-__CPROVER_assigns(STR_ASSIGNS(self), vg_slen, vg_slen_ptr)
+__CPROVER_assigns(STR_ASSIGNS(self); vg_slen, vg_slen_ptr)
 __CPROVER_frees(self->s)
 __CPROVER_ensures(other != NULL || (__CPROVER_return_value == FALSE && STR_UNCHANGED(self)))
 __CPROVER_ensures(other == NULL || __CPROVER_return_value == TRUE)
